@@ -19,7 +19,7 @@ CONSTANTS
   IntegOpts = {"none", "k1", "k2", "corrupt"}
   CfgIds = {}
   RemoteKeys = {"k1", "k2"}
-  LocalKeys = {}
+  LocalKeys = {"k2"}
   OtherCls = {"error"}
   InCls = {"indication"}
   CancelOps = {"cancel"}
